@@ -1,6 +1,8 @@
 import NsyncVerif.Props.C05Mu
 import NsyncVerif.Proofs.MuCOther2
 import NsyncVerif.Proofs.MuCInv11Reach
+import NsyncVerif.Proofs.MuCInv12Reach
+import NsyncVerif.Proofs.MuCTraceLW
 /-!
 # C06 — conditional critical sections
 
@@ -46,11 +48,31 @@ PROVED (theorems; each `def …_full : Prop` that is proved has a theorem of tha
                           MU_ALL_FALSE fast path every queued waiter has a false condition; on ANY fast
                           path either no queued condition is true or another thread is responsible.
 
+* `C06_writer_waiting_justified`, `C06_long_wait_justified`  (Proofs/MuCInv12*, MuCTL*)
+                          the two hints that make an ARRIVING thread queue itself on a free mutex are never stale:
+                          MU_WRITER_WAITING set ⇒ some thread's next acquisition clears the bit (a writer inside
+                          lock_slow that has queued itself or been woken, a write-mode waiter taken off the queue and
+                          in flight, a timed-out waiter spinning in mu_try_acquire_after_timeout_or_cancel) or a
+                          queued write-mode waiter could run (no condition, or condition true on the data) — and the
+                          last alternative needs no condition at all while a client may change the data;
+                          MU_LONG_WAIT set ⇒ some thread inside lock_slow has `long_wait` set, and (spinlock free) it
+                          is woken / in flight or its record is queued.
+* `C06_responsible`       contract kept ⇒ EVERY queued waiter — with or without a condition — whose condition is absent
+                          or true on the data has somebody responsible (holder, unlocker between grab CAS and final
+                          CAS, woken thread in flight, timed-out waiter re-acquiring); also while a thread is between
+                          its enqueue CAS and the queue insertion (`C06_responsible_pending`).
+* `C06_no_stuck_state : C06_no_stuck_state_full`
+                          in a quiescent state (contract kept) nobody sleeps inside nsync_mu_lock / nsync_mu_rlock, and
+                          every sleeper is a nsync_mu_wait waiter on mu->waiters whose condition is false.
+                          (Non-vacuous: `C06_quiescent_witness`; hints: `traceLongWait`, `tracePassedWriter`.)
+
 * witnesses (`decide` on accepted traces of the real library): two eq-equivalent waiters woken by one
   nsync_mu_unlock (`traceEqPair`); the reader-mode timeout under a writer (the F6 path of mu_wait.c)
   with the fresh reader acquiring, and the acceptor rejecting the store of the unfixed code
   (`traceReaderTimeout`); unlock_without_wakeup leaving a false-condition waiter asleep on its
-  MU_ALL_FALSE fast path (`traceNoWakeup`); a contract violation seen by the ghost (`traceNwViol`).
+  MU_ALL_FALSE fast path (`traceNoWakeup`); a contract violation seen by the ghost (`traceNwViol`); a thread woken
+  30 times whose re-queue sets MU_LONG_WAIT (`traceLongWait`); a writer-mode waiter with a true condition passed over
+  by the scan, MU_WRITER_WAITING left set on its behalf (`tracePassedWriter`).
 
 REFUTED as stated (concrete accepted traces of the real library, by `decide`), corrected versions proved
 * `C06_samecond_ring_full_refuted`      rings are not the maximal runs (WAIT_CONDITION_EQ is asymmetric);
@@ -59,16 +81,7 @@ REFUTED as stated (concrete accepted traces of the real library, by `decide`), c
                                         condition-less waiters queued (`traceNwDesig`); corrected:
                                         `C06_without_wakeup_sound`, `C06_without_wakeup_no_missed`.
 
-NOT proved (kept as `def …_full : Prop`)
-* `C06_no_stuck_state_full`.  Proved of it: `C06_no_stuck_state_partial` — in a quiescent state (contract
-  kept) every sleeper's record is still on mu->waiters with `waiting` set, and if the record has a
-  condition the condition is false.  MISSING: that no thread sleeps inside nsync_mu_lock /
-  nsync_mu_rlock (a record WITHOUT condition) in a quiescent state.  That is (I_resp) for condition-less
-  waiters; its induction needs that the two hints which make an ARRIVING thread queue itself on a free
-  mutex are never stale — MU_WRITER_WAITING (some writer that could run is queued, in flight or spinning
-  in mu_try_acquire_after_timeout_or_cancel) and MU_LONG_WAIT (some thread with `long_wait` set is
-  queued or in flight).  Those two invariants are not proved; the evidence for them is the harness
-  oracle `stuck` (never fired on the repaired code, see below).
+Every `def …_full : Prop` of this file is now either proved or refuted-and-corrected.
 
 DEFECT F8 (found by this proof attempt; genuine; repaired in /repo by ace4c21)
   In the pinned code `had_waiters` of nsync_mu_wait_with_deadline was computed as
@@ -781,7 +794,7 @@ def C06_no_missed_cond_full : Prop :=
 
 /-- With the contract of nsync_mu_unlock_without_wakeup respected, the only threads that can be
     asleep in a quiescent state are waiters whose conditions are false.
-    NOT proved (see `C06_no_stuck_state_partial` for what is).  It was FALSE for the pinned code before
+    PROVED: `C06_no_stuck_state` (below, after `C06_responsible`).  It was FALSE for the pinned code before
     the repair of defect F8, where a thread could be left asleep inside nsync_mu_lock on a free mutex:
     `C06_no_stuck_state_old_code_witness`. -/
 def C06_no_stuck_state_full : Prop :=
@@ -878,15 +891,10 @@ theorem C06_no_missed_cond : C06_no_missed_cond_full := by
     obtain ⟨t, ht⟩ := C06_true_cond_has_responsible hr hc k c (Or.inl hk) hcd hev
     exact absurd ht (quiescent_not_resp hr hq t)
 
-/-- What is proved of `C06_no_stuck_state_full`: in a quiescent state (contract kept) every sleeper's
+/-- The older, weaker form of `C06_no_stuck_state` (kept): in a quiescent state (contract kept) every sleeper's
     record is still on mu->waiters with `waiting` set — it has not been dequeued without being woken, nor
     marked woken without a semaphore post — and if the record carries a condition, the condition is false
-    on the current data.  MISSING for the `_full` statement: that the record of a sleeper does carry a
-    condition, i.e. that no thread sleeps inside nsync_mu_lock / nsync_mu_rlock (`lsPRet`) in a quiescent
-    state.  That needs the analogue of (I_resp) for waiters WITHOUT a condition, which in turn needs the
-    hints that make an arriving thread queue itself on a free mutex — MU_WRITER_WAITING and MU_LONG_WAIT —
-    to be justified (a writer that can run is queued or in flight, resp. a long waiter is); those two
-    invariants are not proved. -/
+    on the current data. -/
 theorem C06_no_stuck_state_partial {cfg : Cfg} {s : State} (hr : Reachable cfg s) (hq : Quiescent s)
     (hc : WithoutWakeupContract s) (t : Tid) (ha : Asleep s t) :
     ∃ k, (s.pc t).pwait = some k ∧ k ∈ s.queue ∧ (s.wr k).waiting = true ∧
@@ -895,6 +903,244 @@ theorem C06_no_stuck_state_partial {cfg : Cfg} {s : State} (hr : Reachable cfg s
   all_goals
     (have hqd := quiescent_sleeper_queued hr hq (t := t) (k := k) (by rw [a]; exact b) (by rw [a]; exact b) d
      exact ⟨k, by rw [a]; exact b, hqd.2, hqd.1, fun cd hcd => C06_no_missed_cond cfg s hr hq hc k cd hqd.2 hcd⟩)
+
+/-! ## the hints MU_WRITER_WAITING / MU_LONG_WAIT are never stale; every waiter that could run has somebody responsible -/
+
+/-- MU_WRITER_WAITING is never stale.  While the bit is set,
+    * some thread `t` justifies it — `(s.pc t).wwA`: a writer inside nsync_mu_lock_slow_ that has done its enqueue CAS
+      (it is at the queue insertion, in the wait loop, or woken with `clear` pending) or a waiter of ANY mode spinning
+      in mu_try_acquire_after_timeout_or_cancel (it acquires in write mode first); or `WaitW s t`: a write-mode waiter
+      whose record an unlocker has taken off the queue and that has not yet re-contended — in every case the thread's
+      next acquisition clears the bit (MU_WCLEAR_ON_ACQUIRE), or it queues itself again and sets it;
+    * or a queued write-mode waiter could run: it has no condition, or its condition is true on the current data
+      (the writer the scan of nsync_mu_unlock_slow_ passed over, mu.c:382-385).
+    While a client may change the protected data (`ClientW`: the writer bit is owned by a thread that is not an
+    unlocker mid-scan) the second alternative holds with a waiter WITHOUT condition: every acquisition in write mode
+    clears the bit, so a justification by a true condition never outlives the section that could falsify it.
+    (Defect F6 was a violation of this statement; repaired by 03d0bdc.) -/
+theorem C06_writer_waiting_justified {cfg : Cfg} {s : State} (hr : Reachable cfg s) (hww : s.word.ww = true) :
+    ((∃ t, (s.pc t).wwA = true ∨ WaitW s t) ∨
+      ∃ k, Queued s k ∧ (s.wr k).lType = .W ∧ evalOpt s.data (s.wr k).cond = true) ∧
+    (ClientW s → (∃ t, (s.pc t).wwA = true ∨ WaitW s t) ∨ ∃ k, Queued s k ∧ (s.wr k).lType = .W ∧ (s.wr k).cond = none) :=
+  ⟨(reachable_Inv12 hr).ww hww, (reachable_Inv12 hr).wws hww⟩
+
+/-- While a thread is between the acquiring CAS and the release store of mu_try_acquire_after_timeout_or_cancel
+    MU_WRITER_WAITING is clear, and the `old_word` it will store has neither MU_WRITER_WAITING (masked, 03d0bdc) nor
+    MU_LONG_WAIT: the store cannot leave a stale hint. -/
+theorem C06_timeout_store_clean {cfg : Cfg} {s : State} (hr : Reachable cfg s) (t : Tid) (c : MW) (old : Word) (ok : Bool)
+    (hpc : s.pc t = .mtStRel c old ok) :
+    s.word.ww = false ∧ (mtRelWord (if ok then some c.l else none) old).ww = false ∧
+      (mtRelWord (if ok then some c.l else none) old).lw = false := by
+  have h12 := reachable_Inv12 hr
+  have hlw : old.lw = false := by have := h12.ok t; rw [hpc] at this; exact this
+  refine ⟨h12.mtw t old (by rw [hpc]; rfl), ?_, ?_⟩
+  · unfold mtRelWord; (repeat' split) <;> rfl
+  · unfold mtRelWord; (repeat' split) <;> exact hlw
+
+/-- MU_LONG_WAIT is never stale: while it is set some thread inside nsync_mu_lock_slow_ has its `long_wait` local set
+    (it clears the bit when it acquires, mu.c:66), and when the spinlock is free that thread is woken / in flight, or its
+    record is on the queue. -/
+theorem C06_long_wait_justified {cfg : Cfg} {s : State} (hr : Reachable cfg s) (hlw : s.word.lw = true) :
+    ∃ t c, (s.pc t).sl? = some c ∧ c.lwl = true ∧
+      (s.word.spin = false → InFlight s t ∨ ∃ k, (s.pc t).lsRec = some k ∧ Queued s k) := by
+  obtain ⟨t, c, h1, h2⟩ := (reachable_Inv12 hr).lw hlw
+  refine ⟨t, c, h1, h2, fun hsp => ?_⟩
+  rcases lwl_cases (reachable_inv8 hr t) h1 h2 with a | a | ⟨k, a⟩
+  · exact Or.inl (Or.inl a)
+  · have := (reachable_inv3 hr).no_spin_of_free hsp t; rw [a] at this; cases this
+  · by_cases hq : Queued s k
+    · exact Or.inr ⟨k, a, hq⟩
+    · exact Or.inl (Or.inr ⟨k, (lsRec_waitRec a).1, (lsRec_waitRec a).2, hq⟩)
+
+/-- (I_resp), full form.  In every reachable state in which the contract of nsync_mu_unlock_without_wakeup was kept:
+    if some waiter on mu->waiters or on the private lists of an unlocker could run — it has NO condition (a thread
+    inside nsync_mu_lock / nsync_mu_rlock, or re-acquiring for nsync_mu_wait) or its condition is true on the current
+    data — then some thread is responsible: it owns a share of the mutex (it will release, and its release takes the
+    slow path unless a designated waker is in flight or MU_ALL_FALSE is set — and then every queued waiter has a false
+    condition), it is an unlocker between grab CAS and final CAS, it is a woken thread in flight, or it spins after a
+    timeout in mu_try_acquire_after_timeout_or_cancel. -/
+theorem C06_responsible {cfg : Cfg} {s : State} (hr : Reachable cfg s) (hc : WithoutWakeupContract s)
+    (k : Wid) (hk : Queued s k) (he : evalOpt s.data (s.wr k).cond = true) : ∃ t, RespT s t := by
+  cases hcd : (s.wr k).cond with
+  | none => exact (reachable_Inv12 hr).nm hc (Or.inl ⟨k, hk, hcd⟩)
+  | some c => rw [hcd] at he; exact C06_true_cond_has_responsible hr hc k c hk hcd he
+
+/-- The same while a thread is between its enqueue CAS (mu.c:76) and the queue insertion. -/
+theorem C06_responsible_pending {cfg : Cfg} {s : State} (hr : Reachable cfg s) (hc : WithoutWakeupContract s)
+    (t : Tid) (c : SL) (hpc : s.pc t = .lsSt c) : ∃ u, RespT s u :=
+  (reachable_Inv12 hr).nm hc (Or.inr ⟨t, by rw [hpc]; rfl⟩)
+
+/-- The record of a thread waiting inside nsync_mu_lock_slow_ has no condition (mu.c:83). -/
+theorem C06_lock_slow_record {cfg : Cfg} {s : State} (hr : Reachable cfg s) (t : Tid) (k : Wid)
+    (h : (s.pc t).lsRec = some k) : (s.wr k).cond = none :=
+  (reachable_Inv12 hr).rcn t k h
+
+/-- There is no reachable quiescent state (every thread idle holding nothing, or asleep) in which, the contract of
+    nsync_mu_unlock_without_wakeup having been kept, anybody sleeps on the mutex except nsync_mu_wait waiters (without
+    deadline) whose records are on mu->waiters and whose conditions are false on the protected data.  In particular no
+    thread sleeps inside nsync_mu_lock / nsync_mu_rlock, and none inside the re-acquisition of nsync_mu_wait. -/
+theorem C06_no_stuck_state : C06_no_stuck_state_full := by
+  intro cfg s hr hq hc t ha
+  have h12 := reachable_Inv12 hr
+  have noResp : (∃ u, RespT s u) → False := fun ⟨u, hu⟩ => quiescent_not_resp hr hq u hu
+  rcases ha with ⟨c, k, a, b, d⟩ | ⟨c, k, a, b, d⟩
+  · exfalso
+    have hqd := quiescent_sleeper_queued hr hq (t := t) (k := k) (by rw [a]; exact b) (by rw [a]; exact b) d
+    have hcn := h12.rcn t k (by rw [a]; exact b)
+    exact noResp (h12.nm hc (Or.inl ⟨k, Or.inl hqd.2, hcn⟩))
+  · have hqd := quiescent_sleeper_queued hr hq (t := t) (k := k) (by rw [a]; exact b) (by rw [a]; exact b) d
+    cases hcd : (s.wr k).cond with
+    | none => exact (noResp (h12.nm hc (Or.inl ⟨k, Or.inl hqd.2, hcd⟩))).elim
+    | some cd => exact ⟨c, k, cd, a, b, hqd.2, hcd, C06_no_missed_cond cfg s hr hq hc k cd hqd.2 hcd⟩
+
+/-- Corollary: in a quiescent state (contract kept) no waiter without a condition is queued at all. -/
+theorem C06_quiescent_no_plain_waiter {cfg : Cfg} {s : State} (hr : Reachable cfg s) (hq : Quiescent s)
+    (hc : WithoutWakeupContract s) (k : Wid) (hk : k ∈ s.queue) : (s.wr k).cond ≠ none := by
+  intro hcd
+  obtain ⟨u, hu⟩ := (reachable_Inv12 hr).nm hc (Or.inl ⟨k, Or.inl hk, hcd⟩)
+  exact quiescent_not_resp hr hq u hu
+
+/-! ### witnesses for the hint invariants (harness executions of the real library) -/
+
+set_option maxRecDepth 4096 in
+/-- MU_LONG_WAIT (`traceLongWait`, Proofs/MuCTraceLW.lean, 792 events): thread 0 has been woken 30 times inside
+    nsync_mu_lock without getting the mutex; after its 30th re-queue the word is 101 = MU_WLOCK|MU_WAITING|
+    MU_WRITER_WAITING|MU_LONG_WAIT, thread 0 is in the wait loop of lock_slow with `long_wait` set, its record (no
+    condition) is on the queue, thread 1 holds the mutex: the hypotheses of `C06_long_wait_justified`,
+    `C06_writer_waiting_justified` (first alternative: thread 0 is a writer in lock_slow) and `C06_responsible`
+    (thread 1, a holder) are satisfied by a reachable state. -/
+example : stateAfter ⟨false⟩ traceLongWait (fun s => s.word.lw && s.word.ww && encode s.word == 101 && s.queue == [0]
+    && (s.wr 0).cond == none && !s.nwViol && (s.pc 0).wwA
+    && (match (s.pc 0).sl? with | some c => c.lwl && c.wc == 30 | none => false) && (s.pc 0).lsRec == some 0
+    && s.wOwner == some 1) = true := by decide
+
+set_option maxRecDepth 4096 in
+/-- the bit is set by the enqueue CAS of that re-queue (event 789: 9 → 103) and not before -/
+example : stateAfter ⟨false⟩ (traceLongWait.take 788) (fun s => !s.word.lw) = true := by decide
+
+/-- The writer the scan passes over.  A reader-mode waiter (thread 0, x0 >= 1) and a writer-mode waiter (thread 1,
+    x0 == 1) are queued; thread 2 sets x0 := 1; its nsync_mu_unlock wakes the reader and PASSES the writer although its
+    condition is true (mu.c:382-385), leaving MU_WRITER_WAITING set (event 61: word 60 = MU_WAITING|MU_DESIG_WAKER|
+    MU_CONDITION|MU_WRITER_WAITING).  Scenario (seed 1, strategy 2):
+      cond c0 ge x0 1 / cond c1 eq x0 1
+      fiber rlock mu0 ; muwait mu0 c0 inf ; runlock mu0
+      fiber after_blocked 0 ; lock mu0 ; muwait mu0 c1 inf ; unlock mu0
+      fiber after_blocked 1 ; lock mu0 ; wr x0 1 ; unlock mu0 -/
+def tracePassedWriter : List Event := [
+ .call 0 .rlock,
+ .cas 0 .acq .word 0 256 0 true,
+ .ret 0 .rlock .void,
+ .call 0 (.wait (some { fn := .ge, k := 0, var := 0, val := 1, hasEq := false }) none false),
+ .ld 0 .rlx .word 256,
+ .cond 0 .ge 0 false,
+ .st 0 .rlx (.waiting 0) 1 0,
+ .ld 0 .rlx (.rc 0) 0,
+ .ld 0 .rlx .word 256,
+ .cas 0 .acq .word 256 278 256 true,
+ .ld 0 .rlx .word 278,
+ .cas 0 .rel .word 278 20 278 true,
+ .ld 0 .acq (.waiting 0) 1,
+ .semPdEnter 0 0 none,
+ .call 1 .lock,
+ .cas 1 .acq .word 0 1 20 false,
+ .ld 1 .rlx .word 20,
+ .cas 1 .acq .word 20 21 20 true,
+ .ret 1 .lock .void,
+ .call 1 (.wait (some { fn := .eq, k := 1, var := 0, val := 1, hasEq := false }) none false),
+ .ld 1 .rlx .word 21,
+ .cond 1 .eq 1 false,
+ .st 1 .rlx (.waiting 1) 1 0,
+ .ld 1 .rlx (.rc 1) 0,
+ .ld 1 .rlx .word 21,
+ .cas 1 .acq .word 21 23 21 true,
+ .ld 1 .rlx .word 23,
+ .cas 1 .rel .word 23 21 23 true,
+ .ld 1 .rlx .word 21,
+ .cas 1 .ar .word 21 31 21 true,
+ .ld 1 .rlx .word 31,
+ .cas 1 .rel .word 31 29 31 true,
+ .cond 1 .ge 0 false,
+ .cond 1 .eq 1 false,
+ .ld 1 .rlx .word 29,
+ .cas 1 .acq .word 29 31 29 true,
+ .ld 1 .rlx .word 31,
+ .cas 1 .rel .word 31 148 31 true,
+ .ld 1 .acq (.waiting 1) 1,
+ .semPdEnter 1 1 none,
+ .call 2 .lock,
+ .cas 2 .acq .word 0 1 148 false,
+ .ld 2 .rlx .word 148,
+ .cas 2 .acq .word 148 149 148 true,
+ .ret 2 .lock .void,
+ .dataW 2 0 1,
+ .call 2 .unlock,
+ .cas 2 .rel .word 1 0 149 false,
+ .ld 2 .rlx .word 149,
+ .ld 2 .rlx .word 149,
+ .cas 2 .ar .word 149 159 149 true,
+ .ld 2 .rlx .word 159,
+ .cas 2 .rel .word 159 157 159 true,
+ .cond 2 .ge 0 true,
+ .ld 2 .rlx (.rc 0) 0,
+ .cas 2 .rlx (.rc 0) 0 1 0 true,
+ .cond 2 .eq 1 true,
+ .ld 2 .rlx .word 157,
+ .cas 2 .acq .word 157 159 157 true,
+ .ld 2 .rlx .word 159,
+ .cas 2 .rel .word 159 60 159 true,
+ .st 2 .rel (.waiting 0) 0 1,
+ .semV 2 0,
+ .ret 2 .unlock .void,
+ .semPdRet 0 0 false,
+ .ld 0 .rlx (.waiting 0) 0,
+ .ld 0 .acq (.waiting 0) 0,
+ .ld 0 .rlx .word 60,
+ .cas 0 .acq .word 60 308 60 true,
+ .cond 0 .ge 0 true,
+ .ret 0 (.wait (some { fn := .ge, k := 0, var := 0, val := 1, hasEq := false }) none false) (.outc .ok),
+ .call 0 .runlock,
+ .cas 0 .rel .word 256 0 308 false,
+ .ld 0 .rlx .word 308,
+ .ld 0 .rlx .word 308,
+ .cas 0 .ar .word 308 63 308 true,
+ .ld 0 .rlx .word 63,
+ .cas 0 .rel .word 63 61 63 true,
+ .cond 0 .eq 1 true,
+ .ld 0 .rlx (.rc 1) 0,
+ .cas 0 .rlx (.rc 1) 0 1 0 true,
+ .ld 0 .rlx .word 61,
+ .cas 0 .acq .word 61 63 61 true,
+ .ld 0 .rlx .word 63,
+ .cas 0 .rel .word 63 8 63 true,
+ .st 0 .rel (.waiting 1) 0 1,
+ .semV 0 1,
+ .ret 0 .runlock .void,
+ .semPdRet 1 1 false,
+ .ld 1 .rlx (.waiting 1) 0,
+ .ld 1 .acq (.waiting 1) 0,
+ .ld 1 .rlx .word 8,
+ .cas 1 .acq .word 8 1 8 true,
+ .cond 1 .eq 1 true,
+ .ret 1 (.wait (some { fn := .eq, k := 1, var := 0, val := 1, hasEq := false }) none false) (.outc .ok),
+ .call 1 .unlock,
+ .cas 1 .rel .word 1 0 1 true,
+ .ret 1 .unlock .void
+
+]
+example : accepts ⟨false⟩ tracePassedWriter = true ∧ accepts ⟨true⟩ tracePassedWriter = true := by decide
+/-- After the reader has re-acquired (event 69, word 308 = one reader + the four bits) MU_WRITER_WAITING is justified by
+    the SECOND alternative of `C06_writer_waiting_justified` only: the queued writer-mode waiter (record 1) has a
+    condition that is true on the data; no thread is inside lock_slow or spinning after a timeout, the reader (a
+    holder, not a client writer) is responsible for it (`C06_responsible`). -/
+example : stateAfter ⟨false⟩ (tracePassedWriter.take 69) (fun s => s.word.ww && encode s.word == 308 && s.queue == [1]
+    && (s.wr 1).lType == .W && (s.wr 1).cond.isSome && evalOpt s.data (s.wr 1).cond && !s.nwViol
+    && !(s.pc 0).wwA && !(s.pc 1).wwA && !(s.pc 2).wwA && s.wOwner == none && s.rOwners == [0]) = true := by decide
+/-- MU_WRITER_WAITING set by a timed-out waiter that spins (`traceReaderTimeout`, event 24: 21 → 53): the third kind
+    of justification — thread 0 is in the loop of mu_try_acquire_after_timeout_or_cancel. -/
+example : stateAfter ⟨false⟩ (traceReaderTimeout.take 24) (fun s => s.word.ww && (s.pc 0).wwA && (s.pc 0).timedOut
+    && s.wOwner == some 1) = true := by decide
+/-- … and the release store of that path leaves the bit clear (event 45: 151 → 404). -/
+example : stateAfter ⟨false⟩ (traceReaderTimeout.take 45) (fun s => !s.word.ww && !s.word.lw) = true := by decide
 
 /-! ## defect F8 of the pinned code (repaired in /repo by commit ace4c21; the model follows the repaired code)
 
